@@ -213,3 +213,67 @@ def grammar_facts(ss: SourceSet, short: str, bound: int = 7) -> GrammarFacts:
 
 def symbols_str(w) -> str:
     return " ".join(f"{k}:{v}" for k, v in w) if w else "ε"
+
+
+# ---- EBNF of a rule as a regular expression over single-character symbols ---------------------
+class SymAlphabet:
+    """Maps grammar symbols (terminals, nonterminals, string literals) to single letters."""
+
+    def __init__(self):
+        self.map: dict[str, str] = {}
+        self.pool = list("abcdefghijklmnopqrstuvwxyzABCDEFGHIJKLMNOPQRSTUVWXYZ0123456789")
+
+    def letter(self, key: str) -> str:
+        if key not in self.map:
+            if not self.pool:
+                raise AnchorMissing("too many grammar symbols for the symbol alphabet")
+            self.map[key] = self.pool.pop(0)
+        return self.map[key]
+
+
+def ebnf_regex(tree, alpha: SymAlphabet, subst: dict | None = None) -> str:
+    """Regex (Python syntax, one letter per grammar symbol) of a rule's EBNF tree.
+    ``subst`` maps a symbol key to a replacement regex (e.g. {'T:_NEWLINE': 'n+'})."""
+    subst = subst or {}
+    from lark import Tree as LTree
+
+    def sym(key):
+        if key in subst:
+            return subst[key]
+        return alpha.letter(key)
+
+    def go(t) -> str:
+        if not isinstance(t, LTree):
+            # Terminal / NonTerminal symbol objects
+            nm = getattr(t, "name", None)
+            if nm is not None:
+                return sym(("T:" if t.is_term else "N:") + str(nm))
+            raise AnchorMissing(f"EBNF leaf {t!r} not understood")
+        d = t.data
+        if d == "expansions":
+            return "(?:" + "|".join(go(c) for c in t.children) + ")"
+        if d == "expansion":
+            return "".join(go(c) for c in t.children)
+        if d == "alias":
+            return go(t.children[0])
+        if d == "expr":
+            inner = go(t.children[0])
+            op = str(t.children[1])
+            if op in "+*?":
+                return f"(?:{inner}){op}"
+            if op == "~":
+                lo = int(t.children[2])
+                hi = int(t.children[3]) if len(t.children) > 3 else lo
+                return f"(?:{inner}){{{lo},{hi}}}"
+            raise AnchorMissing(f"EBNF operator {op}")
+        if d == "maybe":
+            return "(?:" + go(t.children[0]) + ")?"
+        if d == "value":
+            return go(t.children[0])
+        if d == "literal":
+            return sym("L:" + str(t.children[0]))
+        if d == "template_usage":
+            raise AnchorMissing("grammar templates not supported")
+        raise AnchorMissing(f"EBNF node {d} not understood")
+
+    return go(tree)
